@@ -16,6 +16,7 @@ import (
 // images can be built, and counts open handles.
 type memFS struct {
 	failWrite, failSync bool // one-shot injected I/O errors (seg streams, op E)
+	failShort           bool // one-shot SHORT write: the first half of the bytes is written, (n/2, io.EOF)
 	mu                  sync.Mutex
 	files               map[string]*memFile
 	opens               int
@@ -120,6 +121,13 @@ func (h *memHandle) WriteAt(p []byte, off int64) (int, error) {
 		h.fs.failWrite = false
 		return 0, errors.New("injected write error")
 	}
+	var werr error
+	if h.fs.failShort {
+		// io.WriterAt: "returns a non-nil error when n < len(p)"
+		h.fs.failShort = false
+		p = p[:len(p)/2]
+		werr = io.EOF
+	}
 	h.f.mu.Lock()
 	defer h.f.mu.Unlock()
 	if !h.fs.noPre {
@@ -131,7 +139,7 @@ func (h *memHandle) WriteAt(p []byte, off int64) (int, error) {
 		h.f.data = append(h.f.data, make([]byte, end-len(h.f.data))...)
 	}
 	copy(h.f.data[off:], p)
-	return len(p), nil
+	return len(p), werr
 }
 
 func (h *memHandle) Sync() error {
